@@ -16,6 +16,9 @@ with CPython.
     Only the class is modelled, never the message.  `RecursionError`: the fuel of a recursive method ran out. -/
 inductive PyExc where
   | KeyError | ValueError | TypeError | IndexError | ZeroDivisionError | StopIteration | RecursionError | Other
+  /-- not a Python exception: a `while` loop did not finish within the fuel it was given (no handler catches
+      it); tie theorems show that it does not occur for the fuel they state -/
+  | OutOfFuel
 deriving DecidableEq, Repr
 
 namespace PyRt
